@@ -5,7 +5,18 @@ from diff import Case
 from gen import *
 
 THEOREMS = ["C01_pcap_read_file", "C01_write_packet_exact", "C01_eval_writes_nothing", "C01_run_decomposes",
-            "C01_program_pcap", "C01_empty_program", "C01_reemit_same"]
+            "C01_program_pcap", "C01_empty_program", "C01_reemit_same",
+            # end to end from source bytes, failing runs, let-bound packets at file level, headroom (Props/C01b.v)
+            "C01b_cli_is_front_then_interpreter", "C01b_front_end_meets_specifications", "C01b_compiles_is_sentence",
+            "C01b_compiles_functional", "C01b_eof_accepts_or_fails", "C01b_process_file_ok",
+            "C01b_process_file_err", "C01b_failing_statement_writes_nothing", "C01b_source_run_is_compile_then_run",
+            "C01b_source_pcap", "C01b_failed_run_partial_pcap", "C01b_final_newline_irrelevant",
+            "C01b_one_value_per_expression_statement", "C01b_small_file_records_ok", "C01b_pcap_read_small_file",
+            "C01b_rec_ok_is_about_frames", "C01b_let_writes_nothing", "C01b_bound_name_emits_stored_value",
+            "C01b_let_uses_file", "C01b_let_mid_use_file", "C01b_let_k_uses_file",
+            "C01b_write_returns_headroom", "C01b_rewrite_any_number_of_times"]
+PROPS = ["C01", "C01b"]
+VO = ["theories/Props/C01.vo", "theories/Props/C01b.vo"]
 RULE = ("random programs over every builder, tunnels nested to depth 3, let-bound packets and sequences re-emitted "
         "0/1/many times and out of order, time jumps, the empty program, the import-only program, frames from the bare "
         "14-byte eth::frame() up to a 65535-byte datagram fed from a data file, raw and framed.  Non-trivial = at least "
